@@ -74,6 +74,20 @@ Qed.
 
 Ltac enabled l := exists l; split; [reflexivity|].
 
+(* a launched goroutine goes on: startRunnable stores and broadcasts (Stateable), then calls Run *)
+Lemma launched_progress c s i : rn_at s i = RnLaunched -> i < nrun c -> can_progress c s.
+Proof.
+  intros Er Li. apply Nat.ltb_lt in Li. destruct (stateable (spec c i)) eqn:St.
+  - enabled (LRunStore i). unfold step. cbn [step0]. rewrite Er, Li, St. discriminate.
+  - enabled (LRunCall i). unfold step. cbn [step0]. rewrite Er, Li, St. discriminate.
+Qed.
+
+Lemma stored_progress c s i : rn_at s i = RnStored -> i < nrun c -> can_progress c s.
+Proof.
+  intros Er Li. apply Nat.ltb_lt in Li.
+  enabled (LRunCall i). unfold step. cbn [step0]. rewrite Er, Li. discriminate.
+Qed.
+
 (* ---- the shutdown body can always move (without the timeout) until it is done ---- *)
 Theorem sup_c02_body_progress c s :
   reachable_sup c s -> good c ->
@@ -96,8 +110,8 @@ Proof.
     + enabled (LStopRet i). unfold step. cbn [step0]. rewrite Es, Nat.eqb_refl. unfold stop_may_return. rewrite St.
       cbn. discriminate.
     + destruct (rn_at s i) eqn:Er; try congruence.
-      * enabled (LRunCall i). unfold step. cbn [step0]. rewrite Er.
-        replace (i <? nrun c) with true by (symmetry; apply Nat.ltb_lt; exact Li). discriminate.
+      * eapply launched_progress; eassumption.
+      * eapply stored_progress; eassumption.
       * enabled (LRunRet i None). unfold step. cbn [step0]. rewrite Er.
         replace (i <? nrun c) with true by (symmetry; apply Nat.ltb_lt; exact Li).
         unfold run_may_return. rewrite (G i Li), (SC2 i eq_refl). cbn. discriminate.
@@ -121,8 +135,8 @@ Proof.
         - destruct (IH Hl) as (i & Li & Hi). exists (S i). split; [cbn; lia|exact Hi]. }
       rewrite (ip_len _ _ IP) in Li.
       destruct (rn_at s i) eqn:Er; try contradiction.
-      * enabled (LRunCall i). unfold step. cbn [step0]. rewrite Er.
-        replace (i <? nrun c) with true by (symmetry; apply Nat.ltb_lt; exact Li). discriminate.
+      * eapply launched_progress; eassumption.
+      * eapply stored_progress; eassumption.
       * enabled (LRunRet i None). unfold step. cbn [step0]. rewrite Er.
         replace (i <? nrun c) with true by (symmetry; apply Nat.ltb_lt; exact Li).
         unfold run_may_return. rewrite (G i Li), Hc, orb_true_r. cbn. discriminate.
@@ -153,7 +167,8 @@ Proof.
     + exfalso. apply Nat.ltb_ge in L. pose proof (launch_idx_lt c s Hn Hre i Em). lia.
   - right. destruct (polling (aux s)) eqn:Ep.
     + enabled (LPoll i true). unfold step. cbn [step0]. rewrite Em, Nat.eqb_refl. discriminate.
-    + enabled (LGateCtx i). unfold step. cbn [step0]. rewrite Em, Nat.eqb_refl, Hc, Ep. cbn. discriminate.
+    + enabled (LGateCtx i). unfold step. cbn [step0]. rewrite Em, Nat.eqb_refl, Hc, Ep. cbn.
+      destruct (errq s); discriminate.
   - right. enabled (LGateDecide i). unfold step. cbn [step0]. rewrite Em, Nat.eqb_refl.
     destruct (errq s); discriminate.
   - right. enabled LReapCtx. unfold step. cbn [step0]. rewrite Em, Hc. discriminate.
